@@ -85,6 +85,9 @@ def rule_c09(prog, rep):
         rep.instance('E1')
         starts = [canon(children(x)[1]) for x in walk(f.body) if x.get('kind') == 'BinaryOperator' and x.get('opcode') == '='
                   and canon(children(x)[1]).endswith(('->first', '->last'))]
+        from .expr import var_init as _vi
+        starts += [canon(_vi(x)) for x in walk(f.body) if x.get('kind') == 'VarDecl' and _vi(x) is not None
+                   and canon(_vi(x)).endswith(('->first', '->last'))]
         steps = [canon(children(x)[1]) for x in walk(f.body) if x.get('kind') == 'BinaryOperator' and x.get('opcode') == '='
                  and canon(children(x)[1]).endswith(('->next', '->prev'))]
         ok = bool(starts) and all(s.endswith('->first') for s in starts) and bool(steps) and all(s.endswith('->next') for s in steps)
@@ -325,6 +328,20 @@ def rule_e7(prog, rep, rid='E7'):
     rep.rule(rid, 'in the chain-walking flatteners every copy out of an element takes the element\'s recorded size (or that size - 1) '
                   'and the output cursor advances by the copied length')
     prog.unit(LIST)
+    # copy helpers: static h(d, s, n) { memcpy(d, s, n); return d + n; }  ->  name: (dst index, src index, length index)
+    copy_helpers = {}
+    for g in prog.funcs_in(LIST):
+        if g.body is None or not g.static:
+            continue
+        pn = [p.get('name') for p in g.params]
+        for y in walk(g.body):
+            if y.get('kind') == 'CallExpr' and prog.callee_name(y) in ('memcpy', 'memmove') and len(children(y)) >= 4:
+                a3 = [access_path(z) for z in children(y)[1:4]]
+                if all(z in pn for z in a3) and len(set(a3)) == 3:
+                    rets = [r for r in g.cfg.returns() if children(r.ast)]
+                    if rets and all(canon(children(r.ast)[0]) in ('(%s + %s)' % (a3[0], a3[2]), '(%s + %s)' % (a3[2], a3[0])) for r in rets):
+                        copy_helpers[g.name] = tuple(pn.index(z) for z in a3)
+    rep.notes['copy_out_helpers'] = sorted(copy_helpers)
     for f in sorted(prog.funcs_in(LIST), key=lambda x: x.line or 0):
         if f.body is None:
             continue
@@ -334,9 +351,18 @@ def rule_e7(prog, rep, rid='E7'):
             if n.id not in cfg.reachable or not isinstance(n.ast, dict) or n.kind == 'macro':
                 continue
             for x in walk(n.ast):
-                if x.get('kind') != 'CallExpr' or prog.callee_name(x) not in ('memcpy', 'memmove') or len(children(x)) < 4:
+                if x.get('kind') != 'CallExpr' or len(children(x)) < 4:
                     continue
-                dst, src, ln = children(x)[1:4]
+                helper_adv = False
+                if prog.callee_name(x) in ('memcpy', 'memmove'):
+                    dst, src, ln = children(x)[1:4]
+                elif prog.callee_name(x) in copy_helpers:
+                    di, si, ni = copy_helpers[prog.callee_name(x)]
+                    a_ = children(x)[1:]
+                    dst, src, ln = a_[di], a_[si], a_[ni]
+                    helper_adv = True
+                else:
+                    continue
                 ss = strip(src)
                 if not (ss.get('kind') == 'MemberExpr' and ss.get('name') == 'data' and ss.get('isArrow')):
                     continue
@@ -379,8 +405,15 @@ def rule_e7(prog, rep, rid='E7'):
                             forms.append((None, d.line))
                 else:
                     forms.append((poly_of(ln), x.get('_line')))
+                import re as _re
                 for (p_, line) in forms:
                     c = (p_ - size_atom).as_const() if p_ is not None else None
+                    if c is None and p_ is not None:
+                        d_ = (p_ - size_atom).t
+                        # size - (boolean expression): the truth value of a comparison is 0 or 1
+                        if len(d_) == 1 and list(d_.values()) == [-1] and len(list(d_)[0]) == 1 and \
+                                _re.match(r'^\(.* (==|!=) .*\)$', list(d_)[0][0]):
+                            c = -1
                     if c not in (0, -1):
                         ok, why = False, 'the length defined at line %s is %s, not %s->size or %s->size - 1' % (
                             line, 'not a closed form' if p_ is None else repr(p_), elem, elem)
@@ -390,6 +423,12 @@ def rule_e7(prog, rep, rid='E7'):
                     dname = canon(dsts)
                     adv = [y for y in walk(f.body) if y.get('kind') == 'CompoundAssignOperator' and y.get('opcode') == '+='
                            and canon(children(y)[0]) == dname]
+                    if helper_adv:
+                        # dp = helper(dp, ...): the helper returns its destination advanced by the copied length
+                        adv = []
+                        if not any(y.get('kind') == 'BinaryOperator' and y.get('opcode') == '=' and canon(children(y)[0]) == dname
+                                   and strip(children(y)[1]) is x for y in walk(n.ast)):
+                            ok, why = False, 'the advanced cursor returned by %s() is not stored back to %s' % (prog.callee_name(x), dname)
                     if adv and not any(canon(children(y)[1]) == canon(ln) for y in adv):
                         ok, why = False, 'the output cursor %s advances by %s, not by the copied length %s' % (
                             dname, canon(children(adv[0])[1]), canon(ln))
